@@ -120,6 +120,9 @@ def valid_task(task):
             if ndef:
                 rec['noise_deformation'] = ndef
             em = PauliErrorModel(*direction, deformation_name=(ndef or dn), deformation_kwargs=({'deformation_axis': ax} if ax else {}))
+            # a batch run builds several decoders from the same code and noise-model objects: the one that is judged is the third
+            for _ in range(2):
+                make_decoder(decname, code, em, p, **opts)
             dec = make_decoder(decname, code, em, p, **opts)
     except Exception as ex:
         rec['construct_error'] = '%s: %s' % (type(ex).__name__, ex)
